@@ -20,6 +20,8 @@ CHECK = {
     "campaigns": [
         {"test": "TestVerifC11", "checks": {"quick": 1200, "thorough": 60000}, "death_is_violation": True,
          "timeout": {"quick": 600, "thorough": 5400}},
+        {"test": "TestVerifC11Sched", "checks": {"quick": 600, "thorough": 30000}, "steps": 40, "shrinktime": "60s", "death_is_violation": True,
+         "timeout": {"quick": 600, "thorough": 5400}},
         {"test": "TestVerifC11Fixed", "fixed": True, "checks": {"quick": 1, "thorough": 1}, "death_is_violation": True},
     ],
 }
